@@ -175,6 +175,98 @@ func c05Desc(evs []c05Ev, getMID int32) string {
 	return fmt.Sprintf("%d|%s", getMID, strings.Join(parts, " "))
 }
 
+// runC05Concurrent: k copies of one request are processed concurrently (one goroutine per received
+// message). The first copy's handler is held until all other copies have reached the per-message-ID
+// lock, then released. Reported as the history [Req; Req; ...] in the order the copies took the lock.
+func runC05Concurrent(ev c05Ev, k int, getMID int32) (string, bool) {
+	mc := newMemConn(memConnOpts{getMID: getMID, queueSize: 16, maxRetransmit: 4, perMessageGoroutine: true})
+	defer mc.close()
+	own0 := mc.cc.VerifMsgID()
+	entered := make(chan struct{}, 8)
+	gate := make(chan struct{})
+	mc.mu.Lock()
+	mc.behave = func(w *responsewriter.ResponseWriter[*client.Conn], r *pool.Message) {
+		entered <- struct{}{}
+		<-gate
+		if ev.Beh == "resp" {
+			var body *bytes.Reader
+			if ev.PLen > 0 {
+				body = bytes.NewReader(genBody(ev.PSalt, ev.PLen))
+				_ = w.SetResponse(codes.Code(ev.RCode), message.TextPlain, body, ev.ROpts...)
+			} else {
+				_ = w.SetResponse(codes.Code(ev.RCode), message.TextPlain, nil, ev.ROpts...)
+			}
+		}
+	}
+	mc.mu.Unlock()
+	d := encodeWire(ev.Typ, ev.Code, ev.MID, ev.Tok, ev.ReqOpts, nil)
+	ok := true
+	mc.inject(d)
+	select {
+	case <-entered:
+	case <-time.After(3 * time.Second):
+		ok = false
+	}
+	for i := 1; i < k; i++ {
+		mc.inject(d)
+	}
+	// wait until every other copy holds or waits for the per-message-ID lock (or, in a broken
+	// implementation, has entered the handler as well)
+	deadline := time.Now().Add(3 * time.Second)
+	for mc.cc.VerifMsgIDLockCount(int32(ev.MID))+len(entered) < k && time.Now().Before(deadline) {
+		time.Sleep(200 * time.Microsecond)
+	}
+	close(gate)
+	if !mc.s.waitOut(expectedReplies(ev, k), 3*time.Second) {
+		ok = false
+	}
+	// quiescence: no lock holder left
+	deadline = time.Now().Add(3 * time.Second)
+	for mc.cc.VerifMsgIDLockCount(int32(ev.MID)) > 0 && time.Now().Before(deadline) {
+		time.Sleep(200 * time.Microsecond)
+	}
+	calls := len(mc.takeLog())
+	out := mc.takeOut()
+	var sb strings.Builder
+	fmt.Fprintf(&sb, "Hist %d [", own0)
+	beh := "BNone"
+	if ev.Beh == "resp" {
+		beh = fmt.Sprintf("(BResp %d %s (gen_body %d %d%%nat))", ev.RCode, coqOpts(ev.ROpts), ev.PSalt, ev.PLen)
+	}
+	// distribute the observed replies over the copies in emission order: a copy that produced no
+	// datagram gets the empty list (only possible for a NON request whose handler sets nothing)
+	per := len(out) / k
+	if per*k != len(out) || per > 1 {
+		per = -1
+	}
+	for i := 0; i < k; i++ {
+		if i > 0 {
+			sb.WriteString("; ")
+		}
+		var o []wireMsg
+		switch {
+		case per == 1:
+			o = out[i : i+1]
+		case per == 0:
+			o = nil
+		default:
+			if i == 0 {
+				o = out // irregular: attribute everything to the first copy so that the mismatch is visible
+			}
+		}
+		fmt.Fprintf(&sb, "HReq %d %d %s %d %s %s %s %s", ev.Typ, ev.MID, coqBytes(ev.Tok), ev.Code, coqOpts(ev.ReqOpts), beh, coqBool(i < calls), coqWireObs(o))
+	}
+	sb.WriteString("]")
+	return sb.String(), ok
+}
+
+func expectedReplies(ev c05Ev, k int) int {
+	if ev.Typ == 1 && ev.Beh != "resp" {
+		return 0
+	}
+	return k
+}
+
 // genC05History draws one structured history (shared with C12).
 func genC05History(rng *Rng, tier string) ([]c05Ev, int32) {
 	respOptsPool := []message.Options{
@@ -303,6 +395,26 @@ func runC05(a runArgs) error {
 		e.Add(txt, c05Desc(evs, getMID), dup, fmt.Sprintf("len%02d", len(evs)), fmt.Sprintf("dup=%v", dup))
 	}
 
+	emitConc := func(ev c05Ev, k int, getMID int32) {
+		txt, ok := runC05Concurrent(ev, k, getMID)
+		if !ok {
+			txt, ok = runC05Concurrent(ev, k, getMID)
+		}
+		if !ok {
+			e.Hist["concurrent_timeout"]++
+		}
+		e.Add(txt, fmt.Sprintf("%d|conc:%d %s", getMID, k, ev.desc()), true, "concurrent", fmt.Sprintf("copies%d", k))
+	}
+	if strings.Contains(a.only, "|conc:") {
+		var getMID int32
+		parts := strings.SplitN(a.only, "|", 2)
+		fmt.Sscanf(parts[0], "%d", &getMID)
+		f := strings.Fields(parts[1])
+		var k int
+		fmt.Sscanf(f[0], "conc:%d", &k)
+		emitConc(parseC05Ev(f[1]), k, getMID)
+		return e.Flush(a.out)
+	}
 	if a.only != "" {
 		var getMID int32
 		parts := strings.SplitN(a.only, "|", 2)
@@ -323,6 +435,20 @@ func runC05(a runArgs) error {
 	for c := 0; c < n; c++ {
 		evs, getMID := genC05History(rng, a.tier)
 		emit(evs, getMID)
+	}
+	// concurrently processed copies (one goroutine per received message)
+	nconc := 24
+	if a.tier == "thorough" {
+		nconc = 200
+	}
+	for c := 0; c < nconc; c++ {
+		evs, getMID := genC05History(rng, "quick")
+		for _, ev := range evs {
+			if ev.Kind == "req" {
+				emitConc(ev, 2+rng.Intn(2), getMID)
+				break
+			}
+		}
 	}
 	// canonical witnesses, always present
 	tok := []byte{0xaa, 0xbb}
